@@ -1973,6 +1973,33 @@ class Explorer:
                         del st.visits[kk]
                     return ret(AGG("std::option::Option", "Some", (items[i],)))
                 return ret(AGG("std::option::Option", "None"))
+        # ---- IndexMap::get_index(i): Some(..) exactly when i < len
+        if p in ("indexmap::IndexMap::<K, V, S>::get_index", "indexmap::IndexSet::<T, S>::get_index") and len(args) == 2:
+            base = self.deref(st, args[0]) if args[0][0] == "ref" else args[0]
+            ln = SYM(self.cap(("call", p.rsplit("::", 1)[0] + "::len", (base,))))
+            cond = self.binop(st, "Lt", args[1], ln)
+            OPT = "std::option::Option"
+            some = AGG(OPT, "Some", (SYM(self.cap(("call", p, (base, args[1])))),))
+            alts = []
+            for truth, val in ((True, some), (False, AGG(OPT, "None"))):
+                s2 = st.clone()
+                r = self.eval_bool(s2, cond)
+                if isinstance(r, bool):
+                    if r != truth:
+                        continue
+                elif not self.assume_bool(s2, r, truth):
+                    continue
+                k2 = self.clone_stack(stack)
+                s2.effects.append(("call", p, tuple(args), (base, args[1]), val, site))
+                self.write_place(s2, k2[-1], dest, val, site)
+                if target is None:
+                    continue
+                k2[-1].bb = target
+                alts.append((s2, k2))
+            if not alts:
+                self.finish_path(st, None, "diverge")
+                return "stop"
+            return ("fork", alts)
         # ---- checked slice access: Some(..) exactly when the index / range is within the length
         if p in ("std::slice::<impl [T]>::first", "std::slice::<impl [T]>::get") and len(args) == (1 if p.endswith("first") else 2):
             base = args[0]
